@@ -18,9 +18,10 @@ Model (JSON-serialisable; the top-level package name is NOT part of the model, t
 
 Soundness (every case is an importable package inside the property's domain) is by construction:
 
-* every import statement of module i targets a module j < i of the list (explicit imports are acyclic); when a sub-package
-  exists the top-level `__init__` is first or last in the order, so that no module ever imports a name from a package
-  `__init__` that is still executing (implicitly started parent packages);
+* every import statement of module i targets a module j < i of the list (explicit imports are acyclic); the modules of a
+  sub-package (its `__init__` and children) are contiguous in that order, so that a sub-package `__init__` started implicitly
+  by the import of one of its children never needs a module that is still executing (the check imports every generated
+  package with CPython first and reports a harness error, never a violation, if that fails);
 * a name is bound once per scope (exception: the deliberate "redef" of a function/attribute by a later function/attribute);
   sub-module names, member names, alias names and class-body names come from disjoint pools, so a sub-module never collides
   with a member (docs: best practices) and a class-body name never shadows a global used in a base-class expression;
@@ -219,7 +220,7 @@ class _Builder:
         bases: list[list[str]] = []
         base_ids: list[int] = []
         if cands and self.chance(60):
-            for _ in range(2 if self.chance(30) else 1):
+            for _ in range(2 if self.chance(50) else 1):
                 expr, cid = self.pick(cands)
                 if cid in base_ids:
                     continue
@@ -349,7 +350,11 @@ class _Builder:
                     if asname is None:
                         continue
                 if asname is None:
-                    env[TOP] = {"k": "pkgroot", "subs": [j]}
+                    # `pkg.sub.d.K` is usable in a base-class expression only once `pkg.sub` is bound on `pkg`, i.e.
+                    # after the sub-package __init__ has completed
+                    anc = [k for k, m in enumerate(self.mods) if m["init"] and m["path"] and m["path"] == tgt["path"][: len(m["path"])] and m is not tgt]
+                    usable = all(k < i for k in anc)
+                    env[TOP] = {"k": "pkgroot", "subs": [j] if usable else []}
                 else:
                     env[asname] = {"k": "module", "idx": j}
                 items.append({"t": "import", "mod": j, "as": asname})
@@ -441,36 +446,39 @@ class _Builder:
             self.mods = [{"path": [], "init": False}]
             self.top_idx = 0
         else:
-            extra: list[dict] = []
+            # units of the import order: plain sub-modules, the top-level __init__, and the sub-package as ONE contiguous
+            # block (its __init__ and children in any internal order): importing a child implicitly starts the
+            # sub-package __init__, which then only needs modules of its own block or modules before the block
             n_plain = d(st.integers(0, 2))
             plain = list(d(st.permutations(MOD_NAMES)))[:n_plain]
-            extra += [{"path": [n], "init": False} for n in plain]
-            subpkg = self.chance(35)
-            if subpkg:
+            units: list[list[dict]] = [[{"path": [n], "init": False}] for n in plain]
+            units.append([{"path": [], "init": True}])
+            if self.chance(35):
                 sp = self.pick(SUBPKG_NAMES)
-                extra.append({"path": [sp], "init": True})
+                block = [{"path": [sp], "init": True}]
                 for n in list(d(st.permutations(SUBMOD_NAMES)))[: d(st.integers(0, 1 if n_plain == 2 else 2))]:
-                    extra.append({"path": [sp, n], "init": False})
-            extra = list(d(st.permutations(extra)))
-            top = {"path": [], "init": True}
-            if subpkg:
-                pos = self.pick([0, len(extra)])
-            else:
-                pos = d(st.integers(0, len(extra)))
-            self.mods = extra[:pos] + [top] + extra[pos:]
-            self.top_idx = pos
+                    block.append({"path": [sp, n], "init": False})
+                units.append(list(d(st.permutations(block))))
+            self.mods = [m for unit in d(st.permutations(units)) for m in unit]
+            self.top_idx = next(i for i, m in enumerate(self.mods) if m["init"] and not m["path"])
         for i in range(len(self.mods)):
             self.module(i, layout == "package")
         mods = [{"path": m["path"], "init": m["init"], "doc": m["doc"], "body": m["body"]} for m in self.mods]
         return {"kind": "pkg", "layout": layout, "mods": mods}
 
 
-def cases(feats: dict | None = None):
+EMPTY_CASE = {"kind": "pkg", "layout": "module", "mods": [{"path": [], "init": False, "doc": None, "body": []}]}
+
+
+def cases(feats: dict | None = None, stop=None):
+    """Strategy of cases. `stop()` true (wall-clock budget exhausted) makes it return EMPTY_CASE without drawing."""
     f = dict(DEFAULT_FEATS)
     f.update(feats or {})
 
     @st.composite
     def _cases(draw):
+        if stop is not None and stop():
+            return EMPTY_CASE
         return _Builder(draw, f).build()
 
     return _cases()
